@@ -5,6 +5,7 @@ package composite
 import (
 	"fmt"
 	"math/rand"
+	"sync/atomic"
 	"testing"
 
 	sim "metacontroller/pkg/verifsim"
@@ -40,7 +41,7 @@ type walkStep struct {
 }
 
 func genWalk(rng *rand.Rand, n int) []walkStep {
-	ops := []string{"sync", "sync", "sync", "heal", "heal", "heal-all", "heal-all", "delete", "new-rev", "new-rev", "new-extra", "scale-up", "scale-down"}
+	ops := []string{"sync", "sync", "sync", "heal", "heal", "heal-all", "heal-all", "delete", "new-rev", "new-rev", "new-extra", "scale-up", "scale-down", "fail-next-revision-update"}
 	var w []walkStep
 	for i := 0; i < n; i++ {
 		st := walkStep{Op: ops[rng.Intn(len(ops))], Child: rng.Intn(6)}
@@ -125,6 +126,16 @@ func runC07Walk(t *testing.T, id string, cfg rolloutCfg, walk []walkStep) {
 			}
 		case "scale-down":
 			ro.scale(-1)
+		case "fail-next-revision-update":
+			// an interrupted revision bookkeeping (the add to the latest revision is accepted, the
+			// removal from the old one is not) leaves a child named by two revisions
+			var fired int32
+			ro.r.w.sim.SetFault(func(ri *sim.ReqInfo) *sim.Fault {
+				if ri.GVR.Resource == "controllerrevisions" && ri.Verb == "update" && atomic.CompareAndSwapInt32(&fired, 0, 1) {
+					return &sim.Fault{Code: 500}
+				}
+				return nil
+			})
 		}
 		trace = append(trace, st.Op+" "+name+" "+st.Arg)
 		// let the events of the action be processed
